@@ -412,7 +412,7 @@ where
     B::Octets: AsRef<[u8]>,
 {
     let fam = format!("bs-{}", tname);
-    let total = c.total(200_000, 4_000_000);
+    let total = c.total(200_000, 16_000_000);
     for idx in c.cases(&fam, total) {
         if c.out_of_time() {
             break;
@@ -485,7 +485,7 @@ where
 
 fn from_wire(c: &mut Ctx) {
     let fam = "wire";
-    let total = c.total(600_000, 12_000_000);
+    let total = c.total(600_000, 48_000_000);
     for idx in c.cases(fam, total) {
         if c.out_of_time() {
             break;
@@ -575,7 +575,7 @@ fn from_wire(c: &mut Ctx) {
 
 fn from_text(c: &mut Ctx) {
     let fam = "text";
-    let total = c.total(600_000, 12_000_000);
+    let total = c.total(600_000, 48_000_000);
     for idx in c.cases(fam, total) {
         if c.out_of_time() {
             break;
@@ -633,7 +633,7 @@ fn from_text(c: &mut Ctx) {
 
 fn ops(c: &mut Ctx) {
     let fam = "ops";
-    let total = c.total(300_000, 6_000_000);
+    let total = c.total(300_000, 24_000_000);
     for idx in c.cases(fam, total) {
         if c.out_of_time() {
             break;
@@ -1077,6 +1077,7 @@ fn ops_case(c: &mut Ctx, fam: &str, idx: u64, rng: &mut Rng, w: &[u8], other: &[
 }
 
 pub fn run(c: &mut Ctx) {
+    c.families(7);
     builder_boundary::<Vec<u8>>(c, "Vec");
     builder_boundary::<BytesMut>(c, "BytesMut");
     builder_sequences::<Vec<u8>>(c, "Vec");
